@@ -817,3 +817,58 @@ Proof.
     exists a. split; [exact Hain|]. exists s. split; [exact Hsin|].
     exists v. split; [exact Hvin|]. reflexivity.
 Qed.
+
+(* ===== K. reset() reads exactly entries of the named algorithm ================ *)
+
+Lemma CP_first_nonempty : forall p r t k l tab,
+  first_nonempty p r t k l = Some tab ->
+  exists a, In a l /\ tab = psubset p (pfx4 r t k a).
+Proof.
+  intros p r t k. induction l as [|a l IH]; cbn [first_nonempty]; intros tab H; [discriminate|].
+  destruct (psubset p (pfx4 r t k a)) as [|e tab'] eqn:E.
+  - destruct (IH _ H) as (a' & Hin & ->). exists a'. split; [now right|reflexivity].
+  - injection H as <-. exists a. split; [now left|]. now rewrite E.
+Qed.
+
+Theorem CP_reset_exact : forall c r tn tskn algn ptab,
+  Icat c -> plain algn -> reset_ptab c r tn tskn algn = Some ptab ->
+  forall key b, In (key, b) ptab ->
+    In (key, b) (prime c) /\ pk_run key = r /\
+    let '(_, t, k, a, _, _) := key in
+    nth_error (ix c Ttarget) t = Some tn /\ nth_error (ix c Ttask) k = Some tskn /\
+    exists av, nth_error (ix c Talg) a = Some (construct algn (Some k) (Some av)).
+Proof.
+  intros c r tn tskn algn ptab (Hw & Hnd & Hch) Ha H key b Hin. unfold reset_ptab in H.
+  destruct (alookup tn (t_target c)) as [t|] eqn:Et; [|discriminate].
+  destruct (alookup tskn (t_task c)) as [k|] eqn:Ek; [|discriminate].
+  destruct (first_nonempty (prime c) r t k (map snd (subset (t_alg c) algn [k]))) as [tab|] eqn:E.
+  - injection H as <-. apply CP_first_nonempty in E. destruct E as (a & Hain & ->).
+    unfold psubset in Hin. apply filter_In in Hin. destruct Hin as [Hin Hp]. cbn [fst] in Hp.
+    apply CP_pfx4_exact in Hp. destruct Hp as [Hr Hk]. split; [exact Hin|]. split; [exact Hr|].
+    destruct key as [[[[[r' t'] k'] a'] s'] v']. destruct Hk as (-> & -> & ->).
+    destruct (Hw Ttarget) as [Hit _], (Hw Ttask) as [Hik _].
+    split; [now apply (CP_lookup_index _ _ _ _ Hit)|].
+    split; [now apply (CP_lookup_index _ _ _ _ Hik)|].
+    apply (CP_subset_ids c Talg algn [k] a Hw) in Hain; try discriminate; auto.
+    destruct Hain as (p & av & [<-|[]] & Hn). exists av. exact Hn.
+  - injection H as <-. destruct Hin.
+Qed.
+
+(* reset() before commit 4962e8d read entries of a sibling algorithm *)
+Definition reset_old_witness : cat :=
+  mkcat [([84], 0)] [([116], 0)]
+        [(construct [111] (Some 0) (Some (7, 7, 7)%Z), 0);
+         (construct [109] (Some 0) (Some (1, 0, 0)%Z), 1)]
+        [(construct [115] (Some 0) (Some (9, 9, 9)%Z), 0)]
+        [(construct [118] (Some 0) (Some (1, 0, 0)%Z), 0)]
+        [[84]] [[116]]
+        [construct [111] (Some 0) (Some (7, 7, 7)%Z); construct [109] (Some 0) (Some (1, 0, 0)%Z)]
+        [construct [115] (Some 0) (Some (9, 9, 9)%Z)]
+        [construct [118] (Some 0) (Some (1, 0, 0)%Z)]
+        [((3%Z, 0, 0, 0, 0, 0), 5%Z)].
+
+Lemma CP_reset_old_inexact :
+  reset_ptab_old reset_old_witness 3 [84] [116] [109] = Some [((3%Z, 0, 0, 0, 0, 0), 5%Z)]
+  /\ nth_error (i_alg reset_old_witness) 0 = Some (construct [111] (Some 0) (Some (7, 7, 7)%Z))
+  /\ reset_ptab reset_old_witness 3 [84] [116] [109] = Some [].
+Proof. vm_compute. repeat split; reflexivity. Qed.
